@@ -2,7 +2,9 @@
 package main
 
 import (
+	"crypto/sha1"
 	"fmt"
+	"math"
 	"runtime/debug"
 	"go/types"
 	"os"
@@ -63,6 +65,7 @@ type Engine struct {
 	byVar      map[int32][]int
 	defs       map[int32]*Term
 	defCache   map[*Term]Sc
+	atomLen    map[*Term]Sc
 	dec        []uint64
 	prefix     []uint64
 	alts       [][]uint64
@@ -73,7 +76,7 @@ type Engine struct {
 	globals    map[*ssa.Global]*Val
 	inited     map[*ssa.Package]bool
 	nondet     []nondetRec
-	notes      []string
+	notes      []noteRec
 	pathCovers []string
 	out        []outEvent
 	lastModel  Model
@@ -82,6 +85,9 @@ type Engine struct {
 	overrides  map[string]*Fn
 	stdin      *stdinModel
 	lastPanicMsg string
+	qcache    map[string]cacheEnt
+	cacheHits int
+	noteModel Model
 	reportedPanic bool
 
 	maxConcretize int
@@ -91,9 +97,15 @@ type Engine struct {
 	res           *Result
 }
 
+type noteRec struct {
+	label string
+	v     Val
+}
+
 type outEvent struct {
-	kind string
-	args []Val
+	kind   string
+	format string
+	text   Val
 }
 
 type Options struct {
@@ -139,6 +151,7 @@ type Result struct {
 	Truncated    bool
 	CrossChecked int
 	CrossDiff    int
+	CacheHits    int
 	crossQ       []crossQuery
 }
 
@@ -158,6 +171,7 @@ func newEngine(prog *ssa.Program, opts *Options, id int) *Engine {
 	e.staticInited = map[*ssa.Package]bool{}
 	e.funcsSeen = map[*ssa.Function]bool{}
 	e.maxConcretize = 300
+	e.qcache = map[string]cacheEnt{}
 	return e
 }
 
@@ -166,6 +180,7 @@ func (e *Engine) resetPath(prefix []uint64) {
 	e.byVar = map[int32][]int{}
 	e.defs = map[int32]*Term{}
 	e.defCache = map[*Term]Sc{}
+	e.atomLen = map[*Term]Sc{}
 	e.dec = e.dec[:0]
 	e.prefix = prefix
 	e.alts = nil
@@ -267,10 +282,73 @@ func (e *Engine) mergeModel(m Model) {
 	}
 }
 
+type cacheEnt struct {
+	res string
+	m   Model
+}
+
+func queryKey(as []*Term) string {
+	ids := make([]int, len(as))
+	for i, a := range as {
+		ids[i] = a.id
+	}
+	sort.Ints(ids)
+	var b strings.Builder
+	for _, id := range ids {
+		fmt.Fprintf(&b, "%x,", id)
+	}
+	return b.String()
+}
+
+// checkCached is Solver.Check behind a per-worker cache keyed by the set of asserted terms
+// (terms are hash-consed, so equal constraints on different paths are the same query).
+func (e *Engine) checkCached(as []*Term) (string, Model) {
+	k := queryKey(as)
+	if c, ok := e.qcache[k]; ok {
+		e.cacheHits++
+		return c.res, c.m
+	}
+	// second level: cache shared by all workers, keyed by the query text
+	texts := make([]string, len(as))
+	for i, a := range as {
+		texts[i] = a.Text()
+	}
+	sort.Strings(texts)
+	h := sha1.Sum([]byte(strings.Join(texts, "\n")))
+	gk := string(h[:])
+	globalCache.mu.RLock()
+	c, ok := globalCache.m[gk]
+	globalCache.mu.RUnlock()
+	if ok {
+		e.cacheHits++
+		e.qcache[k] = c
+		return c.res, c.m
+	}
+	r, m := e.solver.Check(as, true)
+	if len(e.qcache) > 400000 {
+		e.qcache = map[string]cacheEnt{}
+	}
+	if r != "unknown" {
+		e.qcache[k] = cacheEnt{r, m}
+		globalCache.mu.Lock()
+		if len(globalCache.m) > 2000000 {
+			globalCache.m = map[string]cacheEnt{}
+		}
+		globalCache.m[gk] = cacheEnt{r, m}
+		globalCache.mu.Unlock()
+	}
+	return r, m
+}
+
+var globalCache = struct {
+	mu sync.RWMutex
+	m  map[string]cacheEnt
+}{m: map[string]cacheEnt{}}
+
 // feasible decides pc_cone ∧ q. Unknown counts as feasible (recorded).
 func (e *Engine) feasible(cone []*Term, q *Term) bool {
 	as := append(append([]*Term{}, cone...), q)
-	r, m := e.solver.Check(as, true)
+	r, m := e.checkCached(as)
 	switch r {
 	case "sat":
 		e.mergeModel(m)
@@ -385,6 +463,7 @@ func (e *Engine) modelValue(s Sc) (uint64, bool) {
 
 // fullModel solves the whole path condition (plus extra) for the values of all nondet inputs.
 func (e *Engine) fullModel(extra ...*Term) ([]ReplayVal, bool) {
+	e.noteModel = nil
 	as := append([]*Term{}, e.pc...)
 	as = append(as, extra...)
 	// definitions in the cone of everything asserted
@@ -416,6 +495,7 @@ func (e *Engine) fullModel(extra ...*Term) ([]ReplayVal, bool) {
 	for i, n := range e.nondet {
 		vals[i] = ReplayVal{Name: n.Name, W: n.W, V: m[n.t.name]}
 	}
+	e.noteModel = m
 	return vals, true
 }
 
@@ -609,7 +689,75 @@ func (e *Engine) renderNotes(vals []ReplayVal) []string {
 	if len(e.notes) == 0 {
 		return nil
 	}
-	return append([]string{}, e.notes...)
+	out := make([]string, 0, len(e.notes))
+	for _, n := range e.notes {
+		out = append(out, n.label+"="+e.renderWithModel(n.v, e.noteModel))
+	}
+	return out
+}
+
+// renderWithModel prints a value, substituting model values for symbolic parts.
+func (e *Engine) renderWithModel(v Val, m Model) string {
+	if i, ok := v.(If); ok {
+		v = i.v
+	}
+	memo := map[*Term]uint64{}
+	num := func(t *Term) (uint64, bool) {
+		if m == nil {
+			return 0, false
+		}
+		return t.Eval(m, memo)
+	}
+	switch x := v.(type) {
+	case Sc:
+		c := x.c
+		if x.t != nil {
+			val, ok := num(x.t)
+			if !ok {
+				return "<sym>"
+			}
+			c = val
+		}
+		if x.w == 0 {
+			return fmt.Sprint(c != 0)
+		}
+		return fmt.Sprint(sextW(x.w, c))
+	case Str:
+		return string(x)
+	case SStr:
+		b := make([]byte, len(x))
+		for i, s := range x {
+			b[i] = byte(s.c)
+			if s.t != nil {
+				if val, ok := num(s.t); ok {
+					b[i] = byte(val)
+				} else {
+					b[i] = '?'
+				}
+			}
+		}
+		return fmt.Sprintf("%q", string(b))[1:len(fmt.Sprintf("%q", string(b)))-1]
+	case SAtom:
+		val, ok := num(x.arg)
+		if !ok {
+			return "<" + x.fn + ">"
+		}
+		switch x.fn {
+		case "itoa":
+			return fmt.Sprint(int64(val))
+		case "utoa":
+			return fmt.Sprint(val)
+		default:
+			return fmt.Sprint(math.Float64frombits(val))
+		}
+	case SCat:
+		s := ""
+		for _, p := range x {
+			s += e.renderWithModel(p, m)
+		}
+		return s
+	}
+	return describe(v)
 }
 
 // runHarness explores all paths of h.
@@ -662,6 +810,7 @@ func runHarness(prog *ssa.Program, h *ssa.Function, opts *Options) *Result {
 			res.SolverErrors += e.solver.Errors
 			res.SolverDur += e.solver.Dur
 			res.Instrs += e.instrs
+			res.CacheHits += e.cacheHits
 			for f := range e.funcsSeen {
 				res.Funcs[f.String()] = true
 			}
